@@ -8,6 +8,7 @@ import (
 	"go/ast"
 	"go/constant"
 	"go/types"
+	"strconv"
 
 	"golang.org/x/tools/go/types/typeutil"
 	"sort"
@@ -313,6 +314,50 @@ func jwsTables(c *Check) {
 			}
 		}
 	}
+	if rev == "" {
+		// no reverse map: the reading direction is a function from the name to the algorithm (a
+		// switch); it must be the inversion of the name map, row by row
+		fwd := map[int64]string{}
+		for _, g := range c.globalsOfType("ncg/signature/jws", "map[ncg/internal/algorithm.Algorithm]string") {
+			for _, r := range mapRowTerms(c.P, g) {
+				if k, err := strconv.ParseInt(r[0], 10, 64); err == nil {
+					fwd[k] = r[1]
+				}
+			}
+		}
+		for _, fs := range c.P.productFuncs() {
+			if c.P.abbrev(fs.Pkg.PkgPath) != "ncg/signature/jws" {
+				continue
+			}
+			sig := fs.Obj.Type().(*types.Signature)
+			if sig.Recv() != nil || sig.Params().Len() != 1 || sig.Results().Len() != 2 || c.P.typeStr(sig.Params().At(0).Type()) != "string" || c.P.typeStr(types.Unalias(sig.Results().At(0).Type())) != "ncg/internal/algorithm.Algorithm" {
+				continue
+			}
+			pg := c.pgOf(c.P.abbrev(fs.Obj.FullName()))
+			if pg == nil {
+				continue
+			}
+			seen := map[int64]bool{}
+			good := len(fwd) == 6
+			for _, s := range pg.Returns() {
+				if !retNilErr(s, 1) {
+					continue
+				}
+				k, ok := retConst(s, 0)
+				name, has := fwd[int64(k)]
+				if !ok || !has {
+					good = false
+					continue
+				}
+				seen[int64(k)] = true
+				a, b := sorted2(name, "p0")
+				if !c.mustPass(pg, "O-C02.2", fmt.Sprintf("name switch: algorithm %d only for its name", k), "returning that algorithm", []*PState{s}, A("+Eq("+a+", "+b+")")) {
+					good = false
+				}
+			}
+			revOK = good && len(seen) == 6
+		}
+	}
 	c.add("O-C02.2", "JWS reverse map is derived from the name map", "the name -> algorithm map used for reading is the inversion of the same name map object", revOK, "")
 	// (4) the verifying parser uses the allow-list
 	for _, f := range discoverFormats(c) {
@@ -511,6 +556,7 @@ func headerNameDifferential(c *Check) {
 		return
 	}
 	c.onlyAfterExhaustion(pg, "O-C02.5", "JWS: all raw member names examined", "returning the decoded protected header", X, ok)
+	c.mustPass(pg, "O-C02.5", "JWS: the scan of the raw member names is unconditional", "returning the decoded protected header", ok, RangeDone(X))
 	for _, n := range names {
 		if n == "ExtendedAttributes" || n == "-" {
 			continue
